@@ -61,6 +61,8 @@ def run_many(jobs, workers=16):
     def one(j):
         j = dict(j)
         return box.run(j.pop("cut"), j.pop("tree"), j.pop("argv"), **j)
+    if os.environ.get("VERIF_COVERAGE"):
+        workers = 1      # (gcov counters are merged into one file per object: one writer at a time)
     with ThreadPoolExecutor(workers) as ex:
         res = list(ex.map(one, jobs))
     # a run that hit its time limit while 16 others were running is repeated alone with three times the limit before it counts
@@ -79,6 +81,8 @@ FAIL_RE = re.compile(rb"^(\d+) out of (\d+) hunks? (FAILED|ignored)(?: -- saving
 def verdicts(out: bytes):
     """structured events from sb_patch's output: per-file sections with hunk verdicts and summaries"""
     ev = []
+    # questions are printed without a newline after them: what follows an answer starts on the question's line
+    out = re.sub(rb"\? \[[yn]\] ", b"? [.]\n", out).replace(b"File to patch: ", b"File to patch:\n")
     for line in out.split(b"\n"):
         m = HUNK_RE.match(line)
         if m:
